@@ -72,6 +72,23 @@ def step (st : St) (op : String) (m : KV) : Option (St × String) :=
     let rid ← getNat m "rec"
     let (s', ok) := Panel.deleteRec Panel.genCfg st rid
     pure (s', if ok then "ok" else "disabled")
+  | "refusedCleanup" => do  -- what dispatchConnection does after GetSession refused (rec, sid), run to completion by one thread
+    let rid ← getNat m "rec"
+    let sid ← getNat m "sid"
+    let (s0, r) := Panel.refusedCleanup Panel.genCfg st rid sid
+    match r with
+    | none => pure (s0, "norec")
+    | some false => pure (s0, "terminate=0 " ++ showState s0)
+    | some true =>
+      let s1 := Panel.retire Panel.genCfg s0 rid
+      let (s2, _) := Panel.closeAll s1 rid
+      let (s3, _) := Panel.deleteRec Panel.genCfg s2 rid
+      pure (s3, "terminate=1 " ++ showState s3)
+  | "refusedCleanupLocked" => do  -- the sessionsM section of that clean-up alone (the thread is parked before TerminateActiveUser)
+    let rid ← getNat m "rec"
+    let sid ← getNat m "sid"
+    let (s0, r) := Panel.refusedCleanup Panel.genCfg st rid sid
+    pure (s0, match r with | none => "norec" | some b => s!"terminate={if b then 1 else 0}")
   | "terminate" => do  -- TerminateActiveUser run to completion by one thread
     let rid ← getNat m "rec"
     let s1 := Panel.retire Panel.genCfg st rid
